@@ -14,6 +14,7 @@ from __future__ import annotations
 
 import math
 import signal
+import random as _random
 import time
 from fractions import Fraction
 
@@ -1324,7 +1325,12 @@ def _alarm(signum, frame):
 
 class Explorer:
     def __init__(self, harness, params, *, query_timeout_ms=10000, path_wall_s=30.0, max_paths=None,
-                 wall_s=None, validate=True, tol=1e-6, sample_every=1, extra_witness=False):
+                 wall_s=None, validate=True, tol=1e-6, sample_every=1, extra_witness=False, spread=None):
+        # spread: seed for a path-capped item whose tree may be far larger than the cap. Plain depth-first order would spend the whole cap
+        # on the last decisions of one run; with a seed every other backtrack flips a RANDOM pending decision (of any earlier run) instead
+        # of the deepest one. Pending alternatives are kept in a worklist, so a tree smaller than the cap is still covered exhaustively.
+        self.spread = _random.Random(spread) if spread is not None else None
+        self._skipped = False
         self.harness = harness
         self.params = params
         self.qto = query_timeout_ms
@@ -1583,6 +1589,7 @@ class Explorer:
         prefix = [Decision(t, False, a, None) for (t, a) in (initial_prefix or [])]
         floor = len(prefix)
         start_model = None
+        work, prev_dec = [], None
         while True:
             if self.max_paths is not None and st.paths + st.pruned >= self.max_paths:
                 st.exhaustive = False
@@ -1642,6 +1649,28 @@ class Explorer:
                     self._validate(ctx, s)
             # backtrack
             dec = ctx.decisions
+            if self.spread is not None:
+                # generational worklist: every pending alternative of every finished run stays available (nothing is lost, the tree is
+                # still covered exactly once if the cap allows); every other pick is a random pending one instead of the deepest
+                for j in range(len(prefix), len(dec)):
+                    if dec[j].alt:
+                        work.append((dec, j))
+                if prev_dec is not None and prev_dec is not dec:
+                    for d0 in prev_dec:
+                        d0.alt_model = None  # keep solver models only for the latest run (memory)
+                prev_dec = dec
+                if len(work) > 300000:
+                    del work[:100000]
+                    self._skipped = True
+                if not work:
+                    break
+                k = self.spread.randrange(len(work)) if (st.paths + st.pruned) % 2 == 1 else -1
+                dl, i = work.pop(k)
+                d = dl[i]
+                prefix = dl[:i] + [Decision(not d.taken, False, d.aux, None)]
+                start_model = d.alt_model
+                d.alt_model = None
+                continue
             i = len(dec) - 1
             while i >= floor and not dec[i].alt:
                 i -= 1
@@ -1653,6 +1682,8 @@ class Explorer:
             start_model = d.alt_model
             d.alt_model = None
         st.wall += time.monotonic() - t0
+        if self._skipped:
+            st.exhaustive = False
         return st
 
     def _handle_cex(self, label, assignment, detail):
